@@ -91,6 +91,8 @@ def evalPred (p : Pred) (fields : List Field) (row : Row) : X Bool := do
     | _, _ => .err dflt
   if p.op == Generated.t_EQ then pure (lhs == rhs)
   else if p.op == Generated.t_NEQ then pure (lhs != rhs)
+  -- NULL is neither smaller nor greater than anything (a NULL that outer-join padding put there included)
+  else if lhs == .null || rhs == .null then pure false
   else if p.op == Generated.t_GT then ordered (fun a b => a > b) (fun a b => strLt b a) .nothingToCompare
   else if p.op == Generated.t_GTE then ordered (fun a b => a ≥ b) (fun a b => !strLt a b) .incompat
   else if p.op == Generated.t_LT then ordered (fun a b => a < b) (fun a b => strLt a b) .nothingToCompare
@@ -235,7 +237,8 @@ def projectColumns (sl : List DerivedCol) (fields : List Field) (rows : List Row
   let hdr ← mapX (fun d => headerOf d fields) sl
   pure (rows', hdr)
 
-/-- `math.Round(float64(num) / float64(den))` for `den > 0` (exact arithmetic: trusted for
+/-- the rounded quotient of `aggregateRows` for `den > 0`, in exact integer arithmetic (`math/big`
+since repair a5d183b; before it `math.Round(float64(num) / float64(den))`, which agreed only for
 |num| < 2^53): nearest integer, halves away from zero. -/
 def roundDiv (sum : Int) (n : Nat) : Int :=
   if n == 0 then 0 else
